@@ -6,7 +6,10 @@ package main
 
 import (
 	"encoding/json"
+
 	"fmt"
+	"github.com/hashicorp/raft"
+	"github.com/robustirc/robustirc/internal/robust"
 	"os"
 	"strings"
 	"sync"
@@ -43,6 +46,55 @@ type c05Client struct {
 }
 
 var c05Counter int
+
+// c05Horizon returns the timestamp of the command entry |back| entries before the newest one.
+func c05Horizon(n *inode, back uint64) (int64, bool) {
+	last, err := n.logStore.LastIndex()
+	if err != nil || last <= back+1 {
+		return 0, false
+	}
+	for idx := last - back; idx >= 1; idx-- {
+		var l raft.Log
+		if err := n.logStore.GetLog(idx, &l); err != nil || l.Type != raft.LogCommand {
+			continue
+		}
+		m := robust.NewMessageFromBytes(l.Data, robust.IdFromRaftIndex(l.Index))
+		if m.UnixNano > 0 {
+			return m.UnixNano, true
+		}
+	}
+	return 0, false
+}
+
+// c05Timestamps maps the unique text of every client line in the durable raft log to the
+// timestamp of its (first) entry.
+func c05Timestamps(n *inode) map[string]int64 {
+	out := map[string]int64{}
+	first, err := n.logStore.FirstIndex()
+	if err != nil || first == 0 {
+		return out
+	}
+	last, _ := n.logStore.LastIndex()
+	for idx := first; idx <= last; idx++ {
+		var l raft.Log
+		if err := n.logStore.GetLog(idx, &l); err != nil || l.Type != raft.LogCommand {
+			continue
+		}
+		m := robust.NewMessageFromBytes(l.Data, robust.IdFromRaftIndex(l.Index))
+		if m.Type != robust.IRCFromClient {
+			continue
+		}
+		f := strings.Fields(m.Data)
+		if len(f) == 0 {
+			continue
+		}
+		text := strings.TrimPrefix(f[len(f)-1], ":")
+		if _, seen := out[text]; !seen {
+			out[text] = m.UnixNano
+		}
+	}
+	return out
+}
 
 func c05Execute(c *c05Case, base string) (fail *vh.Failure, labels []string, nontrivial bool) {
 	c05Counter++
@@ -94,6 +146,7 @@ func c05Execute(c *c05Case, base string) (fail *vh.Failure, labels []string, non
 		clients = append(clients, &c05Client{cred: cred, name: fmt.Sprintf("s%d", k)})
 	}
 	var inFlightDuringFault, resent int32
+	var horizons []int64
 	var faultActive int32
 	var wg sync.WaitGroup
 	deadline := time.Now().Add(40 * time.Second)
@@ -159,6 +212,19 @@ func c05Execute(c *c05Case, base string) (fail *vh.Failure, labels []string, non
 		case "snapshot":
 			node.snapshot()
 			lab["c05:snapshot"] = true
+		case "snapshot-fold":
+			// a snapshot whose compaction horizon lies inside the history: everything up to a recent
+			// entry is folded into the snapshot state, the rest is retained verbatim
+			if h, ok := c05Horizon(node, uint64(ft.AfterMs%7)); ok {
+				*canaryCompactionStart = h + int64(10*time.Minute+expireSessionsInterval)
+				node.snapshot()
+				*canaryCompactionStart = 0
+				horizons = append(horizons, h)
+				lab["c05:snapshot-with-horizon-inside-history"] = true
+			} else {
+				node.snapshot()
+				lab["c05:snapshot"] = true
+			}
 		case "restart":
 			nn, err := node.restart()
 			if err != nil {
@@ -223,6 +289,26 @@ func c05Execute(c *c05Case, base string) (fail *vh.Failure, labels []string, non
 	if atomic.LoadInt32(&resent) > 0 {
 		lab["c05:acknowledged-post-repeated-with-same-id"] = true
 	}
+	// Output of entries that a snapshot folded into its state is gone by design (it is older than
+	// any session may be idle); everything newer than every horizon used in this case is retained
+	// and must be delivered.
+	maxH := int64(0)
+	for _, h := range horizons {
+		if h > maxH {
+			maxH = h
+		}
+	}
+	stamps := map[string]int64{}
+	if maxH > 0 {
+		stamps = c05Timestamps(node)
+	}
+	mustDeliver := func(text string) bool {
+		if maxH == 0 {
+			return true
+		}
+		ts, ok := stamps[text]
+		return ok && ts > maxH
+	}
 	// PINGs are answered to the sender only: every sender's own stream
 	for _, cl := range clients {
 		if c.PingEvery == 0 || cl.gone {
@@ -247,7 +333,7 @@ func c05Execute(c *c05Case, base string) (fail *vh.Failure, labels []string, non
 			if !isPing(cl.name, t) {
 				continue
 			}
-			if pongs[t] != 1 {
+			if pongs[t] > 1 || (pongs[t] == 0 && mustDeliver(t)) {
 				return vh.Failf("acknowledged-ping-not-answered-exactly-once", "PING %q of %s was acknowledged with HTTP 200 and is answered %d times in the sender's stream after the faults %+v (resend_every=%d)", t, cl.name, pongs[t], c.Faults, c.ResendEvery), keys2(lab), true
 			}
 		}
@@ -280,7 +366,7 @@ func c05Execute(c *c05Case, base string) (fail *vh.Failure, labels []string, non
 			if isPing(cl.name, t) {
 				continue // a PING: judged in the sender's stream above
 			}
-			if count[t] != 1 {
+			if count[t] > 1 || (count[t] == 0 && mustDeliver(t)) {
 				return vh.Failf("acknowledged-message-not-exactly-once", "message %q was acknowledged with HTTP 200 but is delivered %d times after the faults %+v", t, count[t], c.Faults), keys2(lab), true
 			}
 		}
@@ -293,7 +379,7 @@ func c05Execute(c *c05Case, base string) (fail *vh.Failure, labels []string, non
 		pos := 0
 		seq := order[cl.name]
 		for _, t := range cl.acked {
-			if isPing(cl.name, t) {
+			if isPing(cl.name, t) || (count[t] == 0 && !mustDeliver(t)) {
 				continue
 			}
 			for pos < len(seq) && seq[pos] != t {
@@ -336,7 +422,7 @@ func TestVerifC05(t *testing.T) {
 		nf := rapid.IntRange(1, 5).Draw(rt, "nfaults")
 		for k := 0; k < nf; k++ {
 			c.Faults = append(c.Faults, c05Fault{
-				Kind:    rapid.SampledFrom([]string{"snapshot", "restart", "restart", "pause"}).Draw(rt, "fault"),
+				Kind:    rapid.SampledFrom([]string{"snapshot", "snapshot-fold", "restart", "restart", "pause"}).Draw(rt, "fault"),
 				AfterMs: rapid.IntRange(0, 40).Draw(rt, "afterms"),
 			})
 		}
